@@ -12,23 +12,23 @@ CHECKS = {
   design="7/C01"),
  "C02": dict(
   technique="runtime reference-model monitor (differential against independent HOTP at floor(unix/period)) over generated instants, zones, monotonic readings and periods",
-  text="Each GenerateTOTP execution is compared with the reference HOTP at floor(unix/period); one second is rendered as 20 different time.Time values (nanoseconds, zones, monotonic reading) and each must give the reference code; step boundaries +-2 s; Skew (unused by generation) takes arbitrary values; defaults (nil params, period 0) are checked consistently across GenerateTOTP, ValidateTOTP and GenerateTOTPURL. Held on the executions produced. A reduced version of the differential also runs compiled for a 32-bit target (GOARCH=386, cmd/arch386). One-goroutine histories with one secret and parameter set: walks over adjacent steps and time steps that agree with a base step in their low or high b bits for every b (what a packed or truncated memo key confuses). A base call alternates with calls that differ in exactly one of period, digits, hash or the instant inside the step.",
+  text="Each GenerateTOTP execution is compared with the reference HOTP at floor(unix/period); one second is rendered as 20 different time.Time values (nanoseconds, zones, monotonic reading) and each must give the reference code; step boundaries +-2 s; Skew (unused by generation) takes arbitrary values; defaults (nil params, period 0) are checked consistently across GenerateTOTP, ValidateTOTP and GenerateTOTPURL. Held on the executions produced. A reduced version of the differential also runs compiled for a 32-bit target (GOARCH=386, cmd/arch386). One-goroutine histories with one secret and parameter set: walks over adjacent steps and time steps that agree with a base step in their low or high b bits for every b (what a packed or truncated memo key confuses). A base call alternates with calls that differ in exactly one of period, digits, hash or the instant inside the step. Every second such history passes one caller-owned Param object rewritten in place.",
   design="7/C02"),
  "C03": dict(
   technique="runtime window-membership oracle: verdicts of ValidateHOTP compared with the reference set of codes for counters max(0,c-s)..c+s",
-  text="For generated (secret, digits, hash, counter, window) the genuine codes at distance -(s+3)..+(s+3) and hostile strings (edits, truncations, padding, Unicode digits, bytes sharing bits with the right digit, sign/space look-alikes of leading-zero codes, value+2^32 aliases of 10-digit codes) are submitted; the verdict must equal membership in the independently computed window set (so coincidences cannot alarm); windows > 10 must be refused; nil parameters mean 6/SHA-1/2. Exploration over boundary counters (c<s, 2^31, 2^32, 2^63) and random ones. One-goroutine validation histories over adjacent and bit-related counters (own code, window edges, first codes outside). Histories of related windows (same first counter, last counter or centre, another skew) with the codes of every counter around both.",
+  text="For generated (secret, digits, hash, counter, window) the genuine codes at distance -(s+3)..+(s+3) and hostile strings (edits, truncations, padding, Unicode digits, bytes sharing bits with the right digit, sign/space look-alikes of leading-zero codes, value+2^32 aliases of 10-digit codes) are submitted; the verdict must equal membership in the independently computed window set (so coincidences cannot alarm); windows > 10 must be refused; nil parameters mean 6/SHA-1/2. Exploration over boundary counters (c<s, 2^31, 2^32, 2^63) and random ones. One-goroutine validation histories over adjacent and bit-related counters (own code, window edges, first codes outside). Histories of related windows (same first counter, last counter or centre, another skew) with the codes of every counter around both. One submitted code while the counter walks across its window and back, every position twice.",
   design="7/C03"),
  "C04": dict(
   technique="runtime window-membership oracle on ValidateTOTP + derivation counting through the HMAC-constructor hook (logical work bound, cut-off at 64)",
-  text="As C03 with time steps; refused skews 11..2^64-1 are probed functionally (genuine codes at distance 0/1/11/skew must be rejected with an error) and by counting HMAC derivations per call through the hook (more than 21 is a violation, a runaway loop is cut off by a sentinel panic instead of hanging); without the hook, huge skews run in a child process judged by allocation counts. No wall-clock verdicts. One-goroutine validation histories over adjacent and bit-related time steps. Histories of related windows (same first step, last step or centre, another skew) with the codes of every step around both.",
+  text="As C03 with time steps; refused skews 11..2^64-1 are probed functionally (genuine codes at distance 0/1/11/skew must be rejected with an error) and by counting HMAC derivations per call through the hook (more than 21 is a violation, a runaway loop is cut off by a sentinel panic instead of hanging); without the hook, huge skews run in a child process judged by allocation counts. No wall-clock verdicts. One-goroutine validation histories over adjacent and bit-related time steps. Histories of related windows (same first step, last step or centre, another skew) with the codes of every step around both. One submitted code while the instant walks across its window and back, every position twice.",
   design="7/C04"),
  "C05": dict(
   technique="runtime reference-model monitor for RFC 6287 + HMAC-constructor hook recording the exact message bytes",
-  text="GenerateOCRA is executed for every advertised suite, parser-accepted grammar strings and hand-built configurations (hash x digits x 32 field subsets x formats x password hashes x suite texts) through every suite construction route, with admissible boundary-length inputs (also presented as adjacent sub-slices of one shared backing array); results are compared with an independent RFC 6287 model, repeated with garbage in unselected fields; the hook compares the HMAC message byte for byte with the documented layout; the formatting stage is driven with chosen 31-bit values. One-goroutine re-cut histories: inputs whose unpadded concatenation is the same byte string cut at other field boundaries.",
+  text="GenerateOCRA is executed for every advertised suite, parser-accepted grammar strings and hand-built configurations (hash x digits x 32 field subsets x formats x password hashes x suite texts) through every suite construction route, with admissible boundary-length inputs (also presented as adjacent sub-slices of one shared backing array); results are compared with an independent RFC 6287 model, repeated with garbage in unselected fields; the hook compares the HMAC message byte for byte with the documented layout; the formatting stage is driven with chosen 31-bit values. One-goroutine re-cut histories: inputs whose unpadded concatenation is the same byte string cut at other field boundaries. Fields exchanged between each other (challenge/session, counter/timestamp); one set of caller-owned field buffers rewritten in place between calls.",
   design="7/C05"),
  "C06": dict(
   technique="runtime differential monitor: ValidateOCRA verdict versus equality with GenerateOCRA's own result on the same data",
-  text="For the C05 population plus derived failure cases, GenerateOCRA is run and ValidateOCRA is then executed on the generated code, edits, truncations, neighbours' codes and arbitrary strings: verdict must equal (submitted == generated), or (false, error) whenever generation fails (undecodable secret, each unusable-suite rule, each inadmissible-input rule). One-goroutine re-cut histories (same unpadded concatenation, other field boundaries), each input validated with the previous input's code and its own.",
+  text="For the C05 population plus derived failure cases, GenerateOCRA is run and ValidateOCRA is then executed on the generated code, edits, truncations, neighbours' codes and arbitrary strings: verdict must equal (submitted == generated), or (false, error) whenever generation fails (undecodable secret, each unusable-suite rule, each inadmissible-input rule). One-goroutine re-cut histories (same unpadded concatenation, other field boundaries), each input validated with the previous input's code and its own. Fields exchanged between each other; one set of caller-owned field buffers rewritten in place between calls (current code accepted, previous code refused).",
   design="7/C06"),
  "C07": dict(
   technique="runtime reference-model monitor on DecodeSecret and all six entry points + HMAC key observation through the hook",
@@ -59,7 +59,7 @@ CHECKS = {
   design="7/C12"),
  "C13": dict(
   technique="runtime invariant monitor on every (ok, err) pair and error text produced by the validation workloads and by failing calls of the other operations",
-  text="The (ok, err) pair of every ValidateHOTP/TOTP/OCRA execution of reduced C03/C04/C06 workloads plus an explicit failure-cause sweep (including failing URLs from a label x type x query-oddity cross product) must be (true,nil) or (false,error); each error text (all Unwrap levels) is scanned for the secret in every spelling/raw/hex form and for any code of the acceptance window (keys >= 10 bytes, codes >= 6 digits so coincidences are excluded).",
+  text="The (ok, err) pair of every ValidateHOTP/TOTP/OCRA execution of reduced C03/C04/C06 workloads plus an explicit failure-cause sweep (including failing URLs from a label x type x query-oddity cross product) must be (true,nil) or (false,error); each error text (all Unwrap levels) is scanned for the secret in every spelling/raw/hex form and for any code of the acceptance window (keys >= 10 bytes, codes >= 6 digits so coincidences are excluded). The (ok, err) rule is also applied along histories in which one secret and one submitted code are validated while the counter or instant walks across the window and back.",
   design="7/C13"),
  "C14": dict(
   technique="runtime reference-predicate monitor; the finite usability grid is enumerated completely, admission by per-field length sweeps",
